@@ -27,12 +27,16 @@ type Rec struct {
 	sync.Mutex
 
 	S    string
+	K    Kind // a field of a named string type; it always holds the same text as S
 	I    int64
 	F    float64
 	B    bool
 	Tags []string
 	Sub  Sub
 }
+
+// Kind is a named string type (struct fields of such types are strings to queries like any other).
+type Kind string
 
 // content is the value of a record, independent of how it is held.
 type content struct {
@@ -70,7 +74,7 @@ func (r *Rec) content() content {
 }
 
 func (r *Rec) setContent(c content) {
-	r.S, r.I, r.F, r.B, r.Sub = c.S, c.I, c.F, c.B, c.Sub
+	r.S, r.K, r.I, r.F, r.B, r.Sub = c.S, Kind(c.S), c.I, c.F, c.B, c.Sub
 	r.Tags = append([]string{}, c.Tags...)
 }
 
@@ -131,7 +135,7 @@ func (v value) hasFields() bool {
 	return v.repr == reprTyped || (v.repr == reprJSON && len(v.data) > 0)
 }
 
-var topFields = []string{"S", "I", "F", "B", "Tags", "Sub"}
+var topFields = []string{"S", "K", "I", "F", "B", "Tags", "Sub"}
 
 // encodeJSON renders the content as a JSON object, leaving out the omitted
 // top-level fields. Field order is the struct order.
@@ -159,6 +163,7 @@ func encodeJSON(c content, omit []string) []byte {
 		buf.Write(b)
 	}
 	add("S", c.S)
+	add("K", c.S)
 	add("I", c.I)
 	add("F", c.F)
 	add("B", c.B)
